@@ -190,3 +190,8 @@ def fidelity(tier, seed):
     a = _fid.scalar_guard(['src/gm2_ffunctions.cpp'], ['src/gm2_dilog.cpp', 'src/gm2_numerics.cpp'], n_calls=25 if tier == 'quick' else 200, seed=seed)
     b = _fid.mssm_model_guard(seed=seed)
     return {'ok': bool(a.get('ok') and b.get('ok')), 'scalar_functions': a, 'mssm_model_functions': b}
+
+# Contracts on single calls carry over to every call in a process only if no function keeps state between calls: C19's static-frame obligation is a lemma here.
+from contracts.shared import reregister as _rr_static
+from contracts import c19 as _c19_static
+_rr_static('C03', 'C19', 'C19.no_stateful_local_statics', 'C03.lemma.no_state_between_calls', replay=None)
